@@ -99,6 +99,8 @@ def _pairs(case):
     mode, pairs = case[0], case[1]
     if mode == "none":
         return []
+    if mode == "crewer":
+        return [tuple(p) for p in pairs]
     if mode == "dict":
         return [tuple(p) for p in dict((n, a) for n, a in pairs).items()]
     return [tuple(p) for p in pairs]
@@ -155,6 +157,12 @@ class C27(core.Check):
                                       ("chgn", "ax", ("l", "h", 1)), ("chgn", ("l", "h", 1), "nb"), ("chgn", "ay", ("d", "h", 1)),
                                       ("geta", ("l", "h", 1)), ("getn", ("d", "h", 1)), ("geta", 0), ("count",)]),
             ("list", [("na", ("l", "h", 1))], []),
+            # a Namer subclass (multidoing.Crewer) fed whole address books: first book, the same again, a hand MOVED to a new address,
+            # an address RE-USED for another name, an empty / unhashable entry, its own name (skipped)
+            ("crewer", [("boss", "/b")], [("bok", [("hand0", "/h0"), ("hand1", "/h1"), ("hand2", "/h2")]), ("bok", [("hand0", "/h0"), ("hand1", "/h1"), ("hand2", "/h2")]),
+                                           ("bok", [("hand1", "/h1"), ("hand2", "/moved")]), ("bok", [("hand3", "/h1")]), ("bok", [("hand3", "/h3"), ("hand4", "")]),
+                                           ("bok", [("hand5", ("l", "h", 1))]), ("bok", [("", "/e")]), ("bok", []), ("count",), ("geta", "hand2"), ("getn", "/h1")]),
+            ("crewer", [], [("bok", [("hand1", "/h1")]), ("rem", "hand1", None), ("bok", [("hand1", "/h9"), ("hand2", "/h1")]), ("chga", "hand1", "/h1"), ("bok", [("hand2", "/h9")])]),
             ("list", [("na", "ax"), (("l", "h", 1), "ay")], []),
         ]
 
@@ -266,7 +274,7 @@ class C27(core.Check):
             na = rng.choice([1, 2, 2, 3, 3, 3, 5])
             names = (NAMES + ["dd", "éé", "n\udc80", 7])[:nn] if rng.random() < 0.8 else rng.sample(NAMES + ["n\udc80", 7, ("b", "na"), ("t", "na")], min(nn, 5))
             addrs = rng.sample(ADDRS + TUPLE_ADDRS + ["na", ("b", "ax"), 7, "ÿ\x80"], min(na, 7))      # "na" is also a name: names and addresses may collide
-            mode = rng.choice(["none", "none", "list", "list", "dict"])
+            mode = rng.choice(["none", "none", "list", "list", "dict", "crewer", "crewer"])
             pairs = []
             if mode != "none":
                 for _ in range(rng.randrange(0, 5)):
@@ -288,6 +296,16 @@ class C27(core.Check):
                 for _ in range(rng.choice([1, 2, 3, 4, 6, 8, 12, 20])):
                     op = self._op(rng, names, addrs, state)
                     self._shadow(state, op)
+                    if mode == "crewer" and rng.random() < 0.4:
+                        # a whole book: JSON-native names (str) and addresses, mostly valid, conflicts with what is registered likely
+                        jn = [x for x in names if isinstance(x, str) and "\udc80" not in x] + ["hand0", ""]      # (a memo is JSON text: no lone surrogates)
+                        ja = [x for x in addrs if isinstance(x, str)] + ["/h1", "/h2", "", None, 0, ("l", "h", 1), ("d", "h", 1)]
+                        op = ("bok", [(rng.choice(jn), rng.choice(ja[:max(2, len(ja) - 5)] if rng.random() < 0.8 else ja)) for _ in range(rng.choice([0, 1, 2, 2, 3, 4]))])
+                        for n_, a_ in dict((n, a) for n, a in op[1]).items():
+                            if n_ != "hand0":
+                                self._shadow(state, ("add", n_, a_))
+                        ops.append(op)
+                        continue
                     if len(op) == 3 and rng.random() < 0.3:
                         # pass the identical stored object instead of an equal fresh one, per argument
                         op = (op[0],) + tuple(("same", x) if rng.random() < 0.6 else x for x in op[1:])
@@ -298,7 +316,11 @@ class C27(core.Check):
     def request(self, case):
         ops = []
         for op in case[2]:
-            ops.append((op[0],) + tuple(_k(x) for x in op[1:]))
+            if op[0] == "bok":
+                # a whole address book sent to a Crewer (self name "hand0"): the entries a JSON object carries, in order
+                ops.append(("bok", _k("hand0"), [(_k(n), _k(a)) for n, a in dict((n, a) for n, a in op[1]).items()]))
+            else:
+                ops.append((op[0],) + tuple(_k(x) for x in op[1:]))
         return ("namer", [(_k(n), _k(a)) for n, a in _pairs(case)], ops)
 
     # ---------------------------------------------------------------- implementation
@@ -311,7 +333,7 @@ class C27(core.Check):
             return ("raise", type(ex).__name__)
 
         # every argument of every call is a freshly built object: equal to, never identical with, what is stored
-        if mode == "none":
+        if mode in ("none", "crewer"):
             entries = None
         elif mode == "dict":
             entries = {_mk(n): _mk(a) for n, a in _pairs(case)}
@@ -323,7 +345,19 @@ class C27(core.Check):
         except Exception as ex:
             return _Obs((("raise", "Bystander:" + type(ex).__name__),))
         try:
-            nm = naming.Namer(entries=entries)
+            if mode == "crewer":
+                # a Namer SUBCLASS from the library, not opened (no socket): driven through its own entry point for books
+                import logging
+                from hio.base import multidoing
+                boss = multidoing.Bossage(name="boss", path="/nowhere/boss.uxd")
+                nm = multidoing.Crewer(name="hand0", boss=boss)
+                nm.logger = logging.getLogger("verif.C27.crewer")
+                nm.logger.addHandler(logging.NullHandler())
+                nm.logger.propagate = False
+                for n_, a_ in pairs:
+                    nm.addNameAddr(name=_mk(n_), addr=_mk(a_))
+            else:
+                nm = naming.Namer(entries=entries)
             nm.addrByName, nm.nameByAddr
         except Exception as ex:
             return _Obs((classify(ex),))
@@ -350,9 +384,20 @@ class C27(core.Check):
         out = [("ok",) + observe()]
         for op in ops:
             k = op[0]
-            args = [arg(x) for x in op[1:]]
+            args = [arg(x) for x in op[1:]] if k != "bok" else []
             try:
-                if k == "add":
+                if k == "bok":
+                    from hio.base import multidoing
+                    load = {_mk(n_): _mk(a_) for n_, a_ in op[1]}
+                    memo = multidoing.BokDom(name="boss", load=load)._asjson().decode()
+                    nm.rxms.clear()
+                    nm.rxms.append((memo, "/nowhere/boss.uxd", None))
+                    try:
+                        r = nm.serviceRxMemos()
+                    finally:
+                        nm.rxms.clear()
+                    r = None
+                elif k == "add":
                     r = nm.addNameAddr(name=args[0], addr=args[1])
                 elif k == "rem":
                     r = nm.remNameAddr(name=args[0], addr=args[1])
@@ -405,7 +450,7 @@ class C27(core.Check):
                 bad.append("two-names-share-address")
             if res is not None:
                 op = case[2][i - 1]
-                rejected = res[0] == "raise"
+                rejected = res[0] == "raise" and op[0] != "bok"      # a book is applied entry by entry: the ones before the rejected entry stay
                 nochange = op[0] in BOOL_OPS and res == ("ok", False)
                 query = op[0] in ("geta", "getn", "count")
                 if (rejected or nochange or query) and (n2a, a2n) != prev:
@@ -437,6 +482,9 @@ class C27(core.Check):
             r = st[0]
             tag = r[1] if r[0] == "raise" else ("True" if r[1] is True else "False" if r[1] is False else "value")
             f.append(f"{op[0]}:{tag}")
+            if op[0] == "bok":
+                f.append(f"bok:entries{min(len(op[1]), 4)}")
+                continue
             if any(isinstance(x, tuple) and x[:1] == ("same",) for x in op[1:]):
                 f.append(f"{op[0]}:identical-arg")
             if any(x in FALSY for x in op[1:]):
